@@ -314,6 +314,11 @@ func runBehavioural(t *testing.T, o behOpts) {
 		}
 		if r.NotBuilt != "" {
 			rec.Class("outcome:output-does-not-compile (judged by C01)")
+			// what could be read off the text without compiling it (C07: an error-capable call in a function without error
+			// result) is still this check's business
+			if !v.OK && !v.Inconclusive {
+				rec.Report(rt, v, progCase(p, files, "program"))
+			}
 			return
 		}
 		recordBehStats(rec, r)
